@@ -518,6 +518,15 @@ func main() {
 				harnessTrouble = append(harnessTrouble, fmt.Sprintf("replay of %s failed (exit %d, log %s)", v.Replay, exit2, log2))
 				continue
 			}
+			if (!rep2.Replay.Violated || rep2.Replay.Sig != v.Sig) && strings.Contains(v.Sig, "/data-race/") {
+				// A report of the Go race detector is sound by itself (it observed two accesses with no
+				// happens-before edge between them); whether the same pair shows again depends on the
+				// runtime's goroutine timing, which the free-running mode does not control. It is
+				// reported, and labelled as not reproduced by the replay.
+				seenSig[v.Sig] = true
+				violations = append(violations, confirmed{v.Sig, "[race detector report; the replay of the same concurrent workload did not show the same pair again]\n" + v.Detail, v.Replay})
+				continue
+			}
 			if !rep2.Replay.Violated || rep2.Replay.Sig != v.Sig {
 				harnessTrouble = append(harnessTrouble, fmt.Sprintf("replay of %s does not reproduce %s (got violated=%v %s): harness nondeterminism", v.Replay, v.Sig, rep2.Replay.Violated, rep2.Replay.Sig))
 				continue
